@@ -173,6 +173,15 @@ func (n *node) str(r *mon.Rand, parentPrio int, isRight bool) string {
 		if n.l.op == "" && !strings.HasPrefix(n.l.lit, "-") {
 			return " -" + n.l.lit
 		}
+		// prefix minus also stacks without parentheses before field references, groups and
+		// calls: --$, ---(a+b), -len($).  (Not before digits: the engine reads a number
+		// with at most one sign, "--2" is not an expression of the language.)
+		if (n.l.op == "neg" || n.l.op == "call" || n.l.op == "") && r.Bool() {
+			cand := "-" + strings.TrimLeft(n.l.str(r, 0, false), " ")
+			if t := strings.TrimLeft(cand, "-"); len(t) > 0 && (t[0] < '0' || t[0] > '9') && t[0] != '.' {
+				return " " + cand
+			}
+		}
 		return " -(" + n.l.str(r, 0, false) + ")"
 	case "call":
 		var as []string
